@@ -1012,7 +1012,7 @@ class AtLeast(puan.Proposition):
                     self.propositions
                 )
             ),
-            'value': self.value
+            'value': int(self.value)
         }
         if self.sign != (puan.Sign.POSITIVE if self.value > 0 else puan.Sign.NEGATIVE):
             # the sign cannot be inferred from the value: keep it
